@@ -124,7 +124,8 @@ def handle (s : State) (line : String) : State × String :=
     | some e => (collect cfg (dropEnum e s), "ok")
     | none => (s, "bad-op")
   | ["render", _obj, kind, k, modePk, top, subs, lines] =>
-    -- modePk = mode, mode+c (palette=<the palette class>), mode+o (palette=<PaletteClass(conf)> object)
+    -- modePk = mode, mode+c (palette=<the palette class>), mode+o (palette=<PaletteClass(conf)> object),
+    -- mode+<d> / mode+o<d> (the class / an object of helper-made or customised palette class d: it is `top`)
     let mode := (modePk.splitOn "+").headD modePk
     let pk := ((modePk.splitOn "+").drop 1).headD "n"
     match confOf s k, top.toNat?, parseNatList subs, parseLines lines with
@@ -145,7 +146,7 @@ def handle (s : State) (line : String) : State × String :=
             match syncedLines s1 top sh.lines with
             | .ok out => (s1, observe kind mode out)
             | .error e => (s1, "err " ++ e.name)
-      else if pk = "o" then
+      else if pk.startsWith "o" then
         -- the program makes the palette object from configuration k; with no_color `_mk_palette` then asks for
         -- `type(palette)(no_color=True)`, i.e. under the global configuration
         match mkPalette cfg reuseAlloc top k false s with
